@@ -314,7 +314,7 @@ def plan(tier, seed):
     for c in env.all_classes():
         k = env.kind_of(c)
         depth = 3 if tier == "quick" else 4
-        if tier == "quick" and env.family_of(c) in env.SERVER_FAMILIES:
+        if tier == "quick" and (env.family_of(c) in env.SERVER_FAMILIES or env.family_of(c) in env.ATTR_FAMILIES):
             depth = 2
         cfg = seq.Config(c, initial=(INIT[k],), label=c)
         kw = dict(label="a/%s/d%d" % (c, depth), cfg=cfg, alphabet="alphabet", depth=depth, oracles={"result"}, hooks="probe")
